@@ -208,6 +208,21 @@ def const_int(t):
     return None
 
 
+def is_pos_inf_const(z):
+    """A constant operand that is +infinity (f64::INFINITY, std::f64::INFINITY, a literal evaluated to +inf) -- and not NEG_INFINITY."""
+    if not (isinstance(z, tuple) and z and z[0] in ("const", "constdef")):
+        return False
+    bits = z[2] if z[0] == "constdef" else z[3]
+    try:
+        if bits is not None and int(bits) == 0x7FF0000000000000:
+            return True
+    except (TypeError, ValueError):
+        pass
+    if z[0] == "constdef":
+        return str(z[1]).split("::")[-1] == "INFINITY"
+    return bool(re.match(r"^\+?inf", str(z[1])))
+
+
 def site(body, bb):
     return body.span_of_block(bb)
 
